@@ -144,7 +144,7 @@ Definition assign_at (d : nat) (l : list nt) (s : sst) (at_ : option item) (post
   | Some (IInt i) => match norm i n with Some j => go_f d l sub [j] [v] false | None => Raised end
   | Some (ISl a b c) =>
       if (step_of c <=? 0)%Z then OutOfModel else rbind (unbind ud v) (fun ps => go_f d l sub (range_sel a b c n) ps false)
-  | Some (ITen [k] vals) => rbind (norm_all vals n) (fun js => rbind (unbind ud v) (fun ps => go_f d l sub js ps true))
+  | Some (ITen [k] vals) => rbind (norm_all vals n) (fun js => rbind (unbind ud v) (fun ps => go_f d l sub js ps (negb fixed_D23)))
   | _ => OutOfModel
   end.
 
@@ -456,7 +456,7 @@ Proof.
         destruct (unbind_spec v (prod_n pre) _ _ pieces Hwv Hsv Hnth Eu) as [Lp Hp].
         assert (Hrem : remove_at (prod_n pre) (o1 ++ [kk] ++ o2) = o1 ++ o2).
         { rewrite <- Lo1. replace (length o1) with (length o1 + 0) by lia. now rewrite remove_at_app_r. }
-        subst n. apply (go_written d l s pre (ITen [kk] vals) post o1 o2 v js pieces true y IH Hne Hwf Hss Hd Hcd eq_refl (n_adv_sub _ _ _ Hn) Esub Lo1);
+        subst n. apply (go_written d l s pre (ITen [kk] vals) post o1 o2 v js pieces (negb fixed_D23) y IH Hne Hwf Hss Hd Hcd eq_refl (n_adv_sub _ _ _ Hn) Esub Lo1);
           [| | |exact H].
         -- apply Forall_forall. intros q0 Hq0. apply In_nth_error in Hq0 as [k Hk]. destruct (Hp k q0 Hk) as (A & B & _).
            rewrite Hrem in A. now split.
